@@ -466,7 +466,7 @@ func c05Removal(c *vf.Ctx) {
 		return
 	}
 	ids := allIdents()
-	n := c.N(300, 10000)
+	n := c.N(300, 30000)
 	for i := 0; i < n; i++ {
 		if !c.Mine(sub, i) {
 			continue
